@@ -1,9 +1,194 @@
 import DspVerif.Driver.Proto
-/-! driver handlers for C03 (stub: no correspondence cases handled yet) -/
+import DspVerif.Model.ArrayOps
+/-! driver handlers for C03: parses the token language of `harness/c03.cpp` (`prog`, `sc`, `zpad`,
+`concat`, `mcplx`, `mre`, `mim`, `mconj`, `mcast`), runs `Model/ArrayOps` at `Float`. -/
 namespace Dsp.Driver
-open Dsp.Proto
+open Dsp.Proto Dsp.ArrayOps
+
+namespace C03
+
+def parseOp : String → Option Op
+  | "add" => some .add
+  | "sub" => some .sub
+  | "mul" => some .mul
+  | "div" => some .div
+  | _ => none
+
+/-- `R n x…` / `C n re im …` -/
+def takeVal : List String → Option (Val Float × List String)
+  | "R" :: rest => do
+    let (a, rest) ← takeFloats rest
+    pure (.r a.toList, rest)
+  | "C" :: rest => do
+    let (a, rest) ← takeCxs rest
+    pure (.c a.toList, rest)
+  | _ => none
+
+/-- `r x` / `i n` / `c re im` / `z re im` (std::complex: converted field by field) -/
+def takeSc : List String → Option (Sc Float × List String)
+  | "r" :: x :: rest => do pure (.r (← parseF x), rest)
+  | "i" :: n :: rest => do pure (.i (← parseI n), rest)
+  | "c" :: re :: im :: rest => do pure (.c ⟨← parseF re, ← parseF im⟩, rest)
+  | "z" :: re :: im :: rest => do pure (.c ⟨← parseF re, ← parseF im⟩, rest)
+  | _ => none
+
+partial def takeExpr : List String → Option (Expr Float × List String)
+  | "v" :: k :: rest => do pure (.var (← k.toNat?), rest)
+  | "l" :: rest => do
+    let (v, rest) ← takeVal rest
+    pure (.lit v, rest)
+  | "neg" :: rest => do
+    let (e, rest) ← takeExpr rest
+    pure (.neg e, rest)
+  | "pos" :: rest => do
+    let (e, rest) ← takeExpr rest
+    pure (.pos e, rest)
+  | "aa" :: o :: rest => do
+    let o ← parseOp o
+    let (a, rest) ← takeExpr rest
+    let (b, rest) ← takeExpr rest
+    pure (.aa o a b, rest)
+  | "as" :: o :: rest => do
+    let o ← parseOp o
+    let (s, rest) ← takeSc rest
+    let (a, rest) ← takeExpr rest
+    pure (.as o a s, rest)
+  | "sa" :: o :: rest => do
+    let o ← parseOp o
+    let (s, rest) ← takeSc rest
+    let (a, rest) ← takeExpr rest
+    pure (.sa o s a, rest)
+  | "cat" :: rest => do
+    let (a, rest) ← takeExpr rest
+    let (b, rest) ← takeExpr rest
+    pure (.cat a b, rest)
+  | "mask" :: rest => do
+    let (m, rest) ← takeInts rest
+    let (a, rest) ← takeExpr rest
+    pure (.mask a (m.map (· != 0)), rest)
+  | "idx" :: rest => do
+    let (l, rest) ← takeInts rest
+    let (a, rest) ← takeExpr rest
+    pure (.idx a l, rest)
+  | _ => none
+
+def takeStmt : List String → Option (Stmt Float × List String)
+  | "E" :: rest => do
+    let (e, rest) ← takeExpr rest
+    pure (.expr e, rest)
+  | "SET" :: k :: rest => do
+    let (e, rest) ← takeExpr rest
+    pure (.set (← k.toNat?) e, rest)
+  | "COPY" :: k :: j :: rest => do pure (.copy (← k.toNat?) (← j.toNat?), rest)
+  | "CA" :: o :: k :: rest => do
+    let (e, rest) ← takeExpr rest
+    pure (.ca (← parseOp o) (← k.toNat?) e, rest)
+  | "CS" :: o :: k :: rest => do
+    let (s, rest) ← takeSc rest
+    pure (.cs (← parseOp o) (← k.toNat?) s, rest)
+  | "CATA" :: k :: rest => do
+    let (e, rest) ← takeExpr rest
+    pure (.cata (← k.toNat?) e, rest)
+  | _ => none
+
+def takeMany {β : Type} (f : List String → Option (β × List String)) : Nat → List String → Option (List β × List String)
+  | 0, rest => some ([], rest)
+  | n + 1, rest => do
+    let (x, rest) ← f rest
+    let (xs, rest) ← takeMany f n rest
+    pure (x :: xs, rest)
+
+def fmtVal : Val Float → String
+  | .r a => "R " ++ fmtFloatArr a.toArray
+  | .c a => "C " ++ fmtCxArr a.toArray
+
+def fmtRes : Except String (Val Float) → String
+  | .ok v => fmtVal v
+  | .error _ => "ERR"
+
+def fmtCx (z : Cx Float) : String := fmtF z.re ++ " " ++ fmtF z.im
+
+def cxBin (o : Op) (a b : Cx Float) : Cx Float :=
+  match o with
+  | .add => a + b
+  | .sub => a - b
+  | .mul => a * b
+  | .div => a / b
+
+def cxLeft (o : Op) (x : Float) (b : Cx Float) : Cx Float :=
+  match o with
+  | .add => Cx.radd x b
+  | .sub => Cx.rsub x b
+  | .mul => Cx.rmul x b
+  | .div => Cx.rdiv x b
+
+end C03
+open C03
 
 def h03 : List String → Option String
+  | "prog" :: nv :: rest => do
+    let (env, rest) ← takeMany takeVal (← nv.toNat?) rest
+    match rest with
+    | ns :: rest =>
+      let (stmts, rest) ← takeMany takeStmt (← ns.toNat?) rest
+      if !rest.isEmpty then none else
+      let (rs, env') := run env stmts
+      some (String.intercalate " " (rs.map fmtRes ++ ["ENV"] ++ env'.map fmtVal))
+    | [] => none
+  | ["sc", "cc", o, ar, ai, br, bi] => do
+    some (fmtCx (cxBin (← parseOp o) ⟨← parseF ar, ← parseF ai⟩ ⟨← parseF br, ← parseF bi⟩))
+  | ["sc", "cca", o, ar, ai, br, bi] => do
+    some (fmtCx (opC (← parseOp o) ⟨← parseF ar, ← parseF ai⟩ ⟨← parseF br, ← parseF bi⟩))
+  | ["sc", "cr", o, ar, ai, x] => do
+    some (fmtCx (opCRn (← parseOp o) ⟨← parseF ar, ← parseF ai⟩ (← parseF x)))
+  | ["sc", "cra", o, ar, ai, x] => do
+    some (fmtCx (opCR (← parseOp o) ⟨← parseF ar, ← parseF ai⟩ (← parseF x)))
+  | ["sc", "rc", o, x, br, bi] => do
+    some (fmtCx (cxLeft (← parseOp o) (← parseF x) ⟨← parseF br, ← parseF bi⟩))
+  | ["sc", "ic", o, n, br, bi] => do
+    some (fmtCx (cxLeft (← parseOp o) (Float.ofInt (← parseI n)) ⟨← parseF br, ← parseF bi⟩))
+  | ["sc", "neg", ar, ai] => do some (fmtCx (-(⟨← parseF ar, ← parseF ai⟩ : Cx Float)))
+  | ["sc", "conj", ar, ai] => do some (fmtCx (Cx.conj ⟨← parseF ar, ← parseF ai⟩))
+  | ["sc", "abs2", ar, ai] => do some (fmtF (Cx.abs2 ⟨← parseF ar, ← parseF ai⟩))
+  | "zpad" :: rest => do
+    let (v, rest) ← takeVal rest
+    match rest with
+    | [n] => some (fmtRes (zeropad v (← parseI n)))
+    | _ => none
+  | "concat" :: k :: rest => do
+    let (vs, rest) ← takeMany takeVal (← k.toNat?) rest
+    if !rest.isEmpty then none else
+    match vs with
+    | .r a1 :: _ =>
+      let ls ← vs.mapM (fun v => match v with | .r a => some a | _ => none)
+      some (fmtVal (.r (concatenate5 a1 (ls.getD 1 []) (ls.getD 2 []) (ls.getD 3 []) (ls.getD 4 []))))
+    | .c a1 :: _ =>
+      let ls ← vs.mapM (fun v => match v with | .c a => some a | _ => none)
+      some (fmtVal (.c (concatenate5 a1 (ls.getD 1 []) (ls.getD 2 []) (ls.getD 3 []) (ls.getD 4 []))))
+    | [] => none
+  | "mcplx" :: rest => do
+    let (re, rest) ← takeVal rest
+    let (im, rest) ← takeVal rest
+    if !rest.isEmpty then none else
+    match re, im with
+    | .r a, .r b => some (fmtRes ((complexOf a b).map .c))
+    | _, _ => none
+  | "mre" :: rest => do
+    match ← takeVal rest with
+    | (.c z, []) => some (fmtVal (.r (realOf z)))
+    | _ => none
+  | "mim" :: rest => do
+    match ← takeVal rest with
+    | (.c z, []) => some (fmtVal (.r (imagOf z)))
+    | _ => none
+  | "mconj" :: rest => do
+    match ← takeVal rest with
+    | (.c z, []) => some (fmtVal (.c (conjOf z)))
+    | _ => none
+  | "mcast" :: rest => do
+    match ← takeVal rest with
+    | (.r x, []) => some (fmtVal (.c (castOf x)))
+    | _ => none
   | _ => none
 
 end Dsp.Driver
